@@ -118,16 +118,59 @@ def gen_config(ctx, cls=None, scale=None):
     return cfg
 
 
+SCALE_ATTRS = {"linear": ("low_hz", "slope_hz"), "octave": ("low_hz",)}  # documented public parameters
+
+
+def gen_scale_history(ctx, cfg):
+    """A history for the scaling-function OBJECT handed to the bank: constructed with other parameters, possibly
+    used, then its documented public attributes re-assigned to the parameters of cfg["scale"]."""
+    r = ctx.rng
+    name, new = cfg["scale"]["name"], cfg["scale"]["params"]
+    if name == "octave":
+        old = [r.choice([x for x in (20.0, 1.0, 55.0, 100.0, 440.0, 27.5) if x != new[0]])]
+    else:
+        old = [r.choice([x for x in (0.0, 10.0, 40.0, 123.5) if x != new[0]]), r.choice([x for x in (1.0, 0.5, 2.0, 3.25) if x != new[1]])]
+        if r.random() < 0.3:
+            k = r.randrange(2)
+            old[k] = new[k]  # only the other parameter is re-tuned
+    return dict(constructed_with=old, used_before_reassignment=r.random() < 0.5)
+
+
+def retuned_scale(S, cfg):
+    """Replay the recorded history of the scaling-function object."""
+    name, hist = cfg["scale"]["name"], cfg["scale_history"]
+    obj = (S.LinearScaling if name == "linear" else S.OctaveScaling)(*hist["constructed_with"])
+    if hist["used_before_reassignment"]:
+        obj.scale_to_hertz(obj.hertz_to_scale(1000.0))
+    for attr, v in zip(SCALE_ATTRS[name], cfg["scale"]["params"]):
+        setattr(obj, attr, v)
+    return obj
+
+
 def build(F, cfg):
     kw = dict(num_filts=cfg["n"], high_hz=cfg["high"], low_hz=cfg["low"], sampling_rate=cfg["rate"])
+    arg = cfg["scale"]["arg"]
+    if cfg.get("scale_history"):
+        arg = retuned_scale(sys.modules[F.ScalingFunction.__module__], cfg)
     if cfg["cls"] == "tri":
-        return F.TriangularOverlappingFilterBank(cfg["scale"]["arg"], analytic=cfg["analytic"], **kw)
+        return F.TriangularOverlappingFilterBank(arg, analytic=cfg["analytic"], **kw)
     if cfg["cls"] == "fbank":
         return F.Fbank(analytic=cfg["analytic"], **kw)
     if cfg["cls"] == "gabor":
-        return F.GaborFilterBank(cfg["scale"]["arg"], scale_l2_norm=cfg["l2"], erb=cfg["erb"], **kw)
-    return F.ComplexGammatoneFilterBank(cfg["scale"]["arg"], order=cfg["order"], max_centered=cfg["mc"],
+        return F.GaborFilterBank(arg, scale_l2_norm=cfg["l2"], erb=cfg["erb"], **kw)
+    return F.ComplexGammatoneFilterBank(arg, order=cfg["order"], max_centered=cfg["mc"],
                                         scale_l2_norm=cfg["l2"], erb=cfg["erb"], **kw)
+
+
+def fresh_twin(F, cfg):
+    """The same bank on a freshly constructed scale with the same parameters (None if that cannot be built)."""
+    twin = {k: v for k, v in cfg.items() if k != "scale_history"}
+    with warnings.catch_warnings():
+        warnings.simplefilter("ignore")
+        try:
+            return build(F, twin)
+        except Exception:  # noqa: BLE001
+            return None
 
 
 def eff_high(cfg):
@@ -318,6 +361,9 @@ def check_bank(ctx, F, S, np, cfg, bad, deep=True):
         try:
             bank = build(F, cfg)
         except ValueError as e:
+            if cfg.get("scale_history") and fresh_twin(F, cfg) is not None:
+                chk("retuned_scale_like_fresh", False, error="%s: %s (the bank on a fresh scale with these parameters is built)" % (type(e).__name__, e))
+                return None
             if "NaN" in str(e) and cfg["cls"] in ("gabor", "gammatone"):
                 # a filter so narrow-band that its impulse response never exceeds the support threshold:
                 # the temporal support (C07's subject) is sqrt(negative); the bank cannot be built
@@ -333,6 +379,21 @@ def check_bank(ctx, F, S, np, cfg, bad, deep=True):
     chk("num_filts", bank.num_filts == n == len(cen) == len(sup), got=bank.num_filts)
     lay = expected_layout(S, cfg)
     tol = lambda x: 1e-9 * max(1.0, abs(x))  # noqa: E731
+    if cfg.get("scale_history"):
+        # the scaling-function object was re-tuned through its documented public attributes before the bank was
+        # built: the bank is laid out like the one on a freshly constructed scale with the current parameters
+        ctx.count("bank:retuned-scale-object:%s:%s" % (cfg["cls"], cfg["scale"]["name"]))
+        twin = fresh_twin(F, cfg)
+        if twin is not None:
+            tc, ts_ = [float(x) for x in twin.centers_hz], [(float(a), float(c)) for a, c in twin.supports_hz]
+            same = len(tc) == len(cen) and len(ts_) == len(sup)
+            worst = None
+            if same:
+                for i in range(len(cen)):
+                    for got, want in ((cen[i], tc[i]), (sup[i][0], ts_[i][0]), (sup[i][1], ts_[i][1])):
+                        if not abs(got - want) <= tol(want):
+                            same, worst = False, worst or dict(filt=i, got=got, on_fresh_scale=want)
+            chk("retuned_scale_like_fresh", same, centres=cen[:4], centres_on_fresh_scale=tc[:4], first_difference=worst)
     for i in range(n):
         chk("centre_on_scale", abs(cen[i] - lay["centers"][i]) <= tol(cen[i]), filt=i, centre=cen[i], documented=lay["centers"][i])
         chk("centre_in_support", sup[i][0] < cen[i] < sup[i][1], filt=i, centre=cen[i], support=sup[i])
@@ -741,6 +802,8 @@ def run(ctx):
             ctx.count("bank:degenerate-range-skipped")
             continue
         ctx.count("bank:%s:%s" % (cfg["cls"], cfg["scale"]["name"]))
+        if cfg["scale"]["name"] in SCALE_ATTRS and cfg["cls"] != "fbank" and ctx.rng.random() < 0.5:
+            cfg["scale_history"] = gen_scale_history(ctx, cfg)
         if ctx.rng.random() < 0.5:
             # a sibling bank built just before, in the same process, from the same arguments except one (another
             # sampling rate, another number of filters, another lower edge): a bank's layout depends on its OWN arguments
@@ -790,6 +853,17 @@ def run(ctx):
             if is_valid(cfg):
                 ctx.count("bank:corner-lowest-edge:%s" % sname)
                 check_bank(ctx, F, S, np, cfg, bad, deep=True)
+    # every class on a linear / octave scaling-function object whose documented public parameters were re-assigned
+    # after construction (one object re-used while sweeping low_hz / slope_hz)
+    for cls in classes:
+        for sname in SCALE_ATTRS:
+            if cls == "fbank":
+                continue
+            for _ in range(ctx.scale(2, 6)):
+                cfg = gen_config(ctx, cls=cls, scale=sname)
+                if is_valid(cfg):
+                    cfg["scale_history"] = gen_scale_history(ctx, cfg)
+                    check_bank(ctx, F, S, np, cfg, bad, deep=False)
     ctx.log("searched %d banks, %d certification goals so far" % (nb, len(G.items)))
     # ---- range test
     ranges = []
@@ -961,6 +1035,10 @@ def replay(ctx, rp):
                 print("built first: the same bank with", before)
             except Exception as e:  # noqa: BLE001
                 print("sibling could not be built:", e)
+        if cfg.get("scale_history"):
+            print("scaling-function object: constructed with %r%s, then %s re-assigned to %r" % (
+                cfg["scale_history"]["constructed_with"], ", used" if cfg["scale_history"]["used_before_reassignment"] else "",
+                "/".join(SCALE_ATTRS[cfg["scale"]["name"]]), cfg["scale"]["params"]))
         bank = check_bank(ctx, F, S, np, cfg, bad, deep=False)
         n = cfg["n"]
         if bank is not None:
